@@ -78,7 +78,8 @@ def case_strategy(draw, tier="quick", mode=None, kinds=None):
     # C04 finding about flatten's metadata)
     below_multi = mode is None and not specs.needs_loop(spec) and draw(st.integers(0, 3)) == 0
     cands = [i for i, nd in enumerate(nodes) if (nd["k"] in FN_KINDS or
-             (nd["k"] == "partition" and nd["p"].get("key"))) and on_last_branch(spec, i)
+             (nd["k"] == "partition" and nd["p"].get("key"))) and nd["p"].get("key") != "idx0"
+             and on_last_branch(spec, i)
              and (below_multi or not has_multi_ancestor(spec, i))]
     faults = {}
     if cands:
